@@ -13,4 +13,4 @@ disjoint_impls! {
     impl<T: Dispatch<Group = GroupA>, F> Kita<F> for T where F: Fn(&T) -> usize + Send { fn run(&self, f: F) -> usize { f(self) } }
     impl<T: Dispatch<Group = GroupB>, F: FnOnce(&T) -> usize> Kita<F> for T { fn run(&self, f: F) -> usize { f(self) + 100 } }
 }
-fn main() { println!("{}_{}", 5i32.run(|x: &i32| *x as usize), String::from("ab").run(|s: &String| s.len())); }
+fn main() { println!("{} {}", 5i32.run(|x: &i32| *x as usize), String::from("ab").run(|s: &String| s.len())); }
